@@ -319,7 +319,9 @@ def check_case(case, ctx):
     members = cycle_members(spec)
     rx = {r["id"]: r for r in spec["rxns"]}
     forced = any(not (rx[rid]["lb"] <= 0 <= rx[rid]["ub"]) for rid in oracles.internal_ids(spec))
-    classes = [f"mode-{case['mode']}", f"direction-{spec['direction']}", f"n_int-{n_int}", f"cap-{spec.get('cap')}",
+    maxb = max(max(abs(r["lb"]), abs(r["ub"])) for r in spec["rxns"])
+    classes = [f"mode-{case['mode']}", f"direction-{spec['direction']}", f"n_int-{n_int}",
+               "max-bound-" + ("le2" if maxb <= 2 else "le10" if maxb <= 10 else "le100"),
                "cycle-possible" if members else "no-cycle-possible",
                "objective-on-cycle" if any(r in members for r, c in spec["objective"].items() if c != 0) else "objective-off-cycle"]
     classes += [f"built-{k}" for k in spec.get("cycle_kinds", [])]
@@ -451,6 +453,7 @@ def _check_add(case, ctx, spec, classes, members):
 
     model = build.build_model(spec, case["path"])
     rids = [r["id"] for r in spec["rxns"]]
+    maxb = max(max(abs(r["lb"]), abs(r["ub"])) for r in spec["rxns"])
     try:
         add_loopless(model)
     except Exception as e:  # noqa: BLE001
@@ -473,7 +476,7 @@ def _check_add(case, ctx, spec, classes, members):
             _v("al:optimize-raised", f"optimize() after add_loopless raised {type(e).__name__}: {str(e)[:200]}")
         got_value = sol.objective_value if sol.status == "optimal" else None
         ok = (want is None and got_value is None) or (want is not None and got_value is not None and _close(got_value, want, MTOL))
-        what = f"objective {obj} ({sense}), largest |bound| {spec.get('cap')}"
+        what = f"objective {obj} ({sense}), largest |bound| in the model {maxb}"
         if not ok:
             if form is None:
                 form = formulation_optima(spec, objectives)
@@ -516,7 +519,7 @@ def hyp_phase(ctx):
 def phases(tier):
     if tier == "quick":
         return [Phase("hyp", hyp_phase, shards=8, params={"max_examples": 350, "max_int": 5, "budget_s": 50})]
-    return [Phase("hyp", hyp_phase, shards=16, params={"max_examples": 400, "max_int": 6, "budget_s": 500})]
+    return [Phase("hyp", hyp_phase, shards=16, params={"max_examples": 1500, "max_int": 6, "budget_s": 500})]
 
 
 CHECKS = {"loopless": check_case}
